@@ -6,7 +6,7 @@ from . import bv, facts
 from .bv import ZERO, ONE
 from .interp import Interp, Undecided, Diverge, Agg, Enum, Ptr
 from .models import M as MODELS
-from .check_threefish import engine_guard, find, bytes_cell, cell_bytes
+from .check_threefish import engine_guard, find, bytes_cell, cell_bytes, only_beyond_format_limit
 from .check_chacha import _detected  # registers the CPU-detection model
 from spec import blake as B
 
@@ -118,23 +118,84 @@ def c04_default(report, cfg):
         engine_guard(go, report, "R4.2", ikey)
 
 
-def compress_hook_rx(w):
-    return r"^blake_hash::u%dx4::put_block::<" % w
+def compress_hook_rx(w, f=None):
+    """Regex for the instances that ARE the compression function of word size w: the Machine-generic
+    bodies of blake_hash (called from a dispatch arm) that take a &mut to the chaining state and a pointer to a
+    block.  Found by structure; today that is `uNNx4::put_block::<M>`."""
+    if f is None:
+        return r"^blake_hash::u%dx4::put_block::<" % w
+    from . import check_dispatch, graph
+    state_bits, block_bytes = 8 * w, 2 * w          # 8 words of chaining state, 16 message words
+    defs = set()
+    ms = check_dispatch.machines(f)
+    for k, inst in f.instances.items():
+        b = inst.get("body")
+        if not b or f.defs[inst["def"]]["krate"] != "blake_hash":
+            continue
+        ga = inst.get("generic_args", [])
+        if not ga or ga[0].get("ty") not in ms:
+            continue
+        has_state = has_block = False
+        for t in b["locals"][1:1 + b["arg_count"]]:
+            d = f.types.get(t)
+            if not d or d.get("kind") != "ref":
+                continue
+            pt = f.types.get(d["pointee"])
+            if not pt:
+                continue
+            if t.startswith("&mut ") and pt.get("size") == state_bits // 8:
+                has_state = True
+            elif not t.startswith("&mut ") and (pt.get("size") == block_bytes or pt.get("kind") == "slice"):
+                has_block = True
+        if has_state and has_block:
+            defs.add(inst["def"])
+    # keep the innermost ones: a candidate that calls another candidate is a wrapper (per-block method,
+    # block-run helper); the one-block compression itself calls none
+    wrappers = set()
+    for k, inst in f.instances.items():
+        if inst["def"] in defs and inst.get("body"):
+            for _, t in graph.call_sites(inst):
+                ce = t.get("callee")
+                if ce and ce.get("inst") in f.instances and f.instances[ce["inst"]]["def"] in defs and f.instances[ce["inst"]]["def"] != inst["def"]:
+                    wrappers.add(inst["def"])
+    outer = sorted(defs - wrappers) or sorted(defs)
+    if not outer:
+        raise Undecided("no Machine-generic compression body with (&mut state, &block) parameters in blake_hash")
+    return "^(%s)::<" % "|".join(re.escape(d) for d in outer)
 
 
 def compress_hook(name, ctype, variant):
     w = B.PARAMS[variant][0]
 
     def h(it, key, args, callee):
-        # the Machine-generic body  uNNx4::put_block::<M>(mach, state, block, t): every path to the
-        # compression function (per-block method, block-run helper, any dispatch arm) ends here
-        selfp, blockp, t = args[-3:]
-        comp = it.deref_read(selfp, ctype)
-        hb = it.to_bits(comp, ctype)
-        gt = it.ty.get(it.ins[key]["body"]["locals"][len(args) - 1])["pointee"]
-        blk = it.to_bits(it.deref_read(blockp, gt), gt)
-        new = bv.ufn(name, (hb, blk, t.f[0], t.f[1]), len(hb))
-        it.deref_write(selfp, ctype, it.from_bits(new, ctype))
+        # the Machine-generic compression body: every path to the compression function (per-block method,
+        # block-run helper, any dispatch arm) ends here.  Parameters are recognised by type: the &mut chaining
+        # state, the block, and the counter as a pair or as two words (low, high).
+        loc = it.ins[key]["body"]["locals"]
+        selfp = blockp = None
+        words = []
+        st_t = blk_t = None
+        for a, t in zip(args, loc[1:1 + len(args)]):
+            d = it.ty.get(t) if t in it.ty.t else None
+            if isinstance(a, Ptr) and d is not None and d["kind"] == "ref":
+                pt = d["pointee"]
+                if t.startswith("&mut ") and selfp is None and it.ty.kind(pt) != "slice" and it.ty.size_bits(pt) == 8 * w:
+                    selfp, st_t = a, pt
+                elif blockp is None and not t.startswith("&mut "):
+                    blockp, blk_t = a, pt
+            elif isinstance(a, Agg) and len(a.f) == 2 and all(isinstance(x, tuple) and len(x) == w for x in a.f):
+                words = list(a.f)
+            elif isinstance(a, tuple) and len(a) == w:
+                words.append(a)
+        if selfp is None or blockp is None or len(words) != 2:
+            raise Undecided("compression body %s: parameters not recognised" % key[:80])
+        hb = it.to_bits(it.deref_read(selfp, st_t), st_t)
+        if it.ty.kind(blk_t) == "slice":
+            blk = bv.concat(it.to_bits(x, "u8") for x in it.slice_elems(blockp))
+        else:
+            blk = it.to_bits(it.deref_read(blockp, blk_t), blk_t)
+        new = bv.ufn(name, (hb, blk, words[0], words[1]), len(hb))
+        it.deref_write(selfp, st_t, it.from_bits(new, st_t))
         return Agg(())
     return h
 
@@ -160,6 +221,8 @@ def filter_asserts(it, report, rule, ikey):
         for rx, kind, why in ALLOWED_ASSERTS:
             if re.search(rx, a["inst"]) and a["kind"] == kind:
                 ok = True
+        if not ok and a["kind"].startswith("overflow") and only_beyond_format_limit(a, ("t1",)):
+            ok = True       # guards the high counter word only: beyond the format limit, wherever it is written
         if not ok:
             report.violated(rule, "%s:%s:%s" % (ikey, facts.short(a["inst"], 80), a["kind"]),
                             "%s assertion in %s can fail for some inputs" % (a["kind"], facts.short(a["inst"], 80)))
@@ -181,7 +244,7 @@ def c04_finalize(report, cfg, positions=None, only=None):
         ufn_name = "BLAKE%d_COMPRESS" % (256 if w == 32 else 512)
         t = "blake_hash::%s" % name
         fin = find(f, r"^<blake_hash::%s as digest::fixed::FixedOutputDirty>::finalize_into_dirty$" % name)
-        hooks = {compress_hook_rx(w): compress_hook(ufn_name, ctype, variant)}
+        hooks = {compress_hook_rx(w, f): compress_hook(ufn_name, ctype, variant)}
         plist = positions(bb) if positions else range(bb)
         bad_positions = []
         done = 0
@@ -265,7 +328,7 @@ def c04_update(report, cfg, rule="R17.1"):
         ufn_name = "BLAKE%d_COMPRESS" % (256 if w == 32 else 512)
         t = "blake_hash::%s" % name
         upd = find(f, r"^<blake_hash::%s as digest::Update>::update::<&\[u8\]>$" % name)
-        hooks = {compress_hook_rx(w): compress_hook(ufn_name, ctype, variant)}
+        hooks = {compress_hook_rx(w, f): compress_hook(ufn_name, ctype, variant)}
         for p in (0, 1, bb - 1):
             for ln in (0, 1, bb - p - 1 if bb - p - 1 > 1 else 2, bb - p, bb, 2 * bb + 3):
                 ikey = "%s::update pos=%d len=%d@%s" % (name, p, ln, cfg)
